@@ -28,7 +28,9 @@ def check(tier, seed):
         h = ["I 2 2", "C 0", "C 1", "XD 0 %d" % delay, "SB 0 %d 1000 0" % n1]
         if n2:
             h += ["SB 1 %d 5000 0" % n2, "SB 0 %d %d 0" % (n2, 1000 + n1)]
-        h += ["S 0 9000 2 8000 1 q1 8001 0 q2", "E", "E"]
+        # every event is followed by 3 s of (virtual) settling: enough idle events for the slow target to drain everything
+        total_ms = delay * (n1 + 2 * n2)
+        h += ["S 0 9000 2 8000 1 q1 8001 0 q2"] + ["E"] * (2 + total_ms // 3000 + 1)
         overload.append(h)
     errs, oimpl = R.run_impl(overload, "c02o")
     if errs:
